@@ -4,7 +4,7 @@ use super::*;
 /// (theme, is a known-finding region).  A case is generated from exactly one theme; its tags are the theme name plus
 /// measurement tags.  Themes marked `true` are the regions of `known_findings.d/C16.json`; the generator gives them
 /// at most 30 % of the cases.
-pub const THEMES: [(&str, bool); 33] = [
+pub const THEMES: [(&str, bool); 34] = [
     ("valid", false),
     ("random_chars", false),
     ("lossy_bytes", false),
@@ -17,6 +17,7 @@ pub const THEMES: [(&str, bool); 33] = [
     ("deep_nesting", false),
     ("many_versions", false),
     ("atomicity", false),
+    ("insert_select", false),
     ("q_plain", false),
     ("q_wrong_type", false),
     ("q_null_arg", false),
@@ -314,7 +315,7 @@ fn deep(r: &mut Rng, s: &[Table], tags: &mut Vec<String>) -> String {
 }
 
 fn long_garbage(r: &mut Rng, tags: &mut Vec<String>) -> String {
-    let n = [100usize, 2000, 20000, 200000][r.below(4) as usize];
+    let n = [100usize, 2000, 20000, 200000, 600000][r.below(5) as usize];
     tags.push(format!("len{n}"));
     match r.below(7) {
         0 => "#".repeat(n),
@@ -672,6 +673,84 @@ fn atomicity_stmt(r: &mut Rng, s: &[Table], tags: &mut Vec<String>, unique: bool
     }
 }
 
+
+/// `INSERT INTO target SELECT … FROM source …` over tables that span several B+tree pages: every combination of
+/// DISTINCT, WHERE, GROUP BY / aggregates, self-join, ORDER BY (one or two keys, asc / desc), LIMIT / OFFSET, reading
+/// the target itself or the twin table.  Inserted ids are shifted past 1000 and sources are bounded (WHERE id <= k or
+/// LIMIT), so that a case grows linearly.
+fn insert_select_stmt(r: &mut Rng, k: usize, tags: &mut Vec<String>) -> String {
+    let target = ["t1", "t2"][r.below(2) as usize];
+    let src = if r.chance(2, 3) { target } else if target == "t1" { "t2" } else { "t1" };
+    add_tag(tags, if src == target { "is_self" } else { "is_other" });
+    let shift = 1000 * (k as i64 + 1);
+    let shape = r.below(10);
+    let (list, from, group, alias) = match shape {
+        0..=4 => (format!("id + {shift}, a, b"), src.to_string(), String::new(), ""),
+        5 => {
+            add_tag(tags, "is_distinct");
+            (format!("DISTINCT id + {shift}, a, b"), src.to_string(), String::new(), "")
+        }
+        6 | 7 => {
+            add_tag(tags, "is_group_by");
+            (format!("MAX(id) + {shift}, a, MIN(b)"), src.to_string(), " GROUP BY a".to_string(), "")
+        }
+        _ => {
+            add_tag(tags, "is_self_join");
+            (format!("x.id + {shift}, x.a, y.b"), format!("{src} x JOIN {src} y ON x.id = y.id"), String::new(), "x.")
+        }
+    };
+    let mut sql = format!("INSERT INTO {target} SELECT {list} FROM {from}");
+    let bounded_by_where = r.chance(2, 3);
+    if bounded_by_where {
+        add_tag(tags, "is_where");
+        let w = match r.below(3) {
+            0 => format!("{alias}id <= {}", 10 + r.range(5, 40)),
+            1 => format!("{alias}a = {} AND {alias}id <= 200", r.range(0, 6)),
+            _ => format!("{alias}id >= {} AND {alias}id <= {}", 10 + r.range(0, 30), 40 + r.range(0, 40)),
+        };
+        sql.push_str(&format!(" WHERE {w}"));
+    }
+    // GROUP BY goes after WHERE
+    sql.push_str(&group);
+    let grouped = !group.is_empty();
+    match r.below(8) {
+        0 | 1 => {}
+        2 => {
+            add_tag(tags, "is_order_asc");
+            sql.push_str(&if grouped { " ORDER BY a".to_string() } else { format!(" ORDER BY {alias}id") })
+        }
+        3 => {
+            add_tag(tags, "is_order_desc");
+            sql.push_str(&if grouped { " ORDER BY a DESC".to_string() } else { format!(" ORDER BY {alias}id DESC") })
+        }
+        4 => {
+            add_tag(tags, "is_order_two_keys");
+            sql.push_str(&if grouped { " ORDER BY a DESC".to_string() } else { format!(" ORDER BY {alias}a, {alias}id") })
+        }
+        5 => {
+            add_tag(tags, "is_order_two_keys");
+            sql.push_str(&if grouped { " ORDER BY a".to_string() } else { format!(" ORDER BY {alias}a DESC, {alias}id ASC") })
+        }
+        6 => {
+            add_tag(tags, "is_order_text");
+            sql.push_str(&if grouped { " ORDER BY a".to_string() } else { format!(" ORDER BY {}b", if alias.is_empty() { "" } else { "y." }) })
+        }
+        _ => {
+            add_tag(tags, "is_order_asc");
+            sql.push_str(&if grouped { " ORDER BY a ASC".to_string() } else { format!(" ORDER BY {alias}id ASC") })
+        }
+    }
+    if !bounded_by_where || r.chance(1, 3) {
+        add_tag(tags, "is_limit");
+        sql.push_str(&format!(" LIMIT {}", 1 + r.range(0, 30)));
+        if r.chance(1, 3) {
+            add_tag(tags, "is_offset");
+            sql.push_str(&format!(" OFFSET {}", r.range(0, 12)));
+        }
+    }
+    sql
+}
+
 fn star_expr_stmt(r: &mut Rng, s: &[Table], tags: &mut Vec<String>) -> String {
     let t = any_table(r, s);
     let c = any_col(r, t).0.clone();
@@ -701,7 +780,12 @@ fn xop_bytes(bs: &[u8]) -> String {
 }
 
 pub fn gen_case(theme: &str, r: &mut Rng) -> Case {
-    let schema = gen_schema(r);
+    let mut schema = gen_schema(r);
+    if theme == "insert_select" {
+        // twin tables, so that a SELECT from one fits the other
+        let cols = vec![("id".to_string(), 'I'), ("a".to_string(), 'I'), ("b".to_string(), 't')];
+        schema = vec![Table { name: "t1".into(), cols: cols.clone() }, Table { name: "t2".into(), cols }];
+    }
     let sess = theme == "sess_dml" || theme == "sess_atomicity" || (theme != "atomicity" && theme != "unique_violation" && r.chance(1, 3));
     let pool = 1 + r.below(3) as usize;
     let mut tags: Vec<String> = vec![theme.to_string(), format!("pool{pool}"), format!("tables{}", schema.len())];
@@ -723,6 +807,33 @@ pub fn gen_case(theme: &str, r: &mut Rng) -> Case {
                     format!("INSERT INTO {} VALUES ({}), ({}), ({})", t.name, row_sql(r, t, base), row_sql(r, t, base + 1), row_sql(r, t, base + 2))
                 };
                 ops.insert(at, xop(&sql));
+            }
+        }
+        "insert_select" => {
+            // both tables grow past one B+tree page: 60-160 rows, short or wide
+            let wide = r.chance(1, 3);
+            tags.push(if wide { "is_wide_rows" } else { "is_short_rows" }.into());
+            for t in ["t1", "t2"] {
+                let batches = 3 + r.below(6) as i64;
+                for bt in 0..batches {
+                    let rows: Vec<String> = (0..20)
+                        .map(|i| {
+                            let id = 10 + bt * 20 + i;
+                            let text = if wide { format!("{}{}", "w".repeat(150 + (id as usize * 7) % 200), id) } else { format!("row{id}") };
+                            format!("({}, {}, '{}')", id, id % 7, text)
+                        })
+                        .collect();
+                    ops.push(xop(&format!("INSERT INTO {} VALUES {}", t, rows.join(", "))));
+                }
+            }
+            let m = 8 + r.below(8) as usize;
+            for k in 0..m {
+                let v = match r.below(8) {
+                    0 => format!("SELECT COUNT(*) FROM {}", ["t1", "t2"][r.below(2) as usize]),
+                    1 => valid_stmt(r, &schema),
+                    _ => insert_select_stmt(r, k, &mut tags),
+                };
+                ops.push(xop(&v));
             }
         }
         "random_chars" => (0..n).for_each(|_| ops.push(xop(&random_chars(r)))),
